@@ -75,7 +75,8 @@ Definition case_deep (input obs : json) : verdict :=
   let token := jstr_or_empty (jget "token" input) in
   let m := match holder_verify O token with Val _ => "ok" | Fail => "err" | Panic => "panic" end in
   let o := obs_class (jget "hverify" obs) in
-  if String.eqb o "abort" then VPropFail ("Holder::verify aborts the process (stack exhaustion) on deeply nested disclosures [model: " ++ m ++ "]")
+  if String.eqb o "timeout" then VPropFail ("Holder::verify does not return within the time limit: the work grows exponentially with the number of disclosures [model: " ++ m ++ "]")
+  else if String.eqb o "abort" then VPropFail ("Holder::verify aborts the process (stack exhaustion) on deeply nested disclosures [model: " ++ m ++ "]")
   else if String.eqb o "panic" then VPropFail "Holder::verify panics on deeply nested disclosures"
   else if String.eqb o m then VOk true else VMismatch ("Holder::verify on nested disclosures: impl " ++ o ++ ", model " ++ m).
 
